@@ -29,7 +29,7 @@ ID = "C17"
 LEVEL = "fault_enumeration"
 ANCHORS = ["prov.model:ProvDocument.serialize"]
 NAMES = ["plain.out", "with space.out", "ünï-cødé.out", "a#b.out", "x?y=1.out", "semi;colon.out", "c:d.out", "per%20cent.out", "sub/dir.out",
-         "ABS", "trailing.", "file:REL", "dotted..name", "~tilde.out", "FILEURL"]
+         "ABS", "trailing.", "file:REL", "dotted..name", "~tilde.out", "FILEURL", "run:1.out", "prov-2.0:out file.out", "http:x.out", "+plus.out"]
 FORMATS = ["json", "xml", "provn", "rdf"]
 _audit = {"on": False, "log": []}
 
